@@ -1,4 +1,235 @@
+//! E-RT: real-time property stress of dust-dds' std runtime (property C42).
+//!
+//! `rt C42 <quick|thorough> [--replay <file>]`
+//!
+//! Configurations are drawn from a proptest runner seeded from VERIF_SEED, executed concurrently
+//! (each on its own `StdRuntime`: the oracle clauses do not depend on how loaded the machine is),
+//! a failing configuration is re-run 3x and only reported when it fails every time, then shrunk
+//! with proptest's value tree.
+
+mod exec;
+mod model;
+
+use exec::{RunResult, Verdict, run_case};
+use model::{Case, case_strategy};
+use proptest::strategy::{Strategy, ValueTree};
+use serde_json::{Value, json};
+use std::{
+    sync::{Mutex, atomic::{AtomicUsize, Ordering::SeqCst}},
+    time::Duration,
+};
+use vcore::{Failure, Known, Meta, Report};
+
+const RULE: &str = "a configuration counts when it has >= 2 concurrent sleeps of which at least one was actually dropped before completing, or a block_timeout around a future that becomes ready only after a delay";
+const ASSUMPTIONS: &[&str] = &[
+    "real clock, real threads: OS preemption points are not explored, only sampled",
+    "bounded liveness: 'always completes' is judged with a 20 s wall bound and needs 3/3 reproduction",
+    "a drop is judged only when it happened >= 250 ms (measured) before the earliest possible deadline; the window in which the timer thread may already be waking a sleep that is being dropped is not judged",
+    "durations whose deadline is not representable are only checked for 'does not complete / does not panic / does not disturb other sleeps' during the test window",
+];
+
+fn wall_bound() -> Duration {
+    Duration::from_millis(std::env::var("RT_WALL_BOUND_MS").ok().and_then(|s| s.parse().ok()).unwrap_or(20_000))
+}
+
+/// Runs the case `n` times concurrently; true when every run shows the signature.
+fn reproduces(case: &Case, sig: &str, n: usize) -> (usize, Vec<RunResult>) {
+    reproduces_within(case, sig, n, wall_bound())
+}
+
+fn reproduces_within(case: &Case, sig: &str, n: usize, bound: Duration) -> (usize, Vec<RunResult>) {
+    let watch = sig == "C42:dropped-sleep-woke";
+    let results: Vec<RunResult> = std::thread::scope(|s| {
+        let hs: Vec<_> = (0..n).map(|_| s.spawn(|| run_case(case, bound, false, watch))).collect();
+        hs.into_iter().map(|h| h.join().expect("run")).collect()
+    });
+    let hits = results.iter().filter(|r| r.verdicts.iter().any(|v| v.sig == sig)).count();
+    (hits, results)
+}
+
+fn case_json(c: &Case) -> Value {
+    serde_json::to_value(c).unwrap()
+}
+
 fn main() {
-    eprintln!("engine rt: not built yet");
-    std::process::exit(2);
+    let ctx = vcore::Ctx::from_args();
+    if ctx.id != "C42" {
+        eprintln!("engine rt serves C42 only");
+        std::process::exit(2);
+    }
+    exec::install_panic_hook();
+    let meta = Meta { rule: RULE, assumptions: ASSUMPTIONS, nontrivial_floor: ctx.pick(60, 1000) };
+    let mut report = Report::default();
+
+    if let Some(path) = &ctx.replay {
+        let v = vcore::load_replay(path);
+        let case: Case = serde_json::from_value(v).unwrap_or_else(|e| {
+            eprintln!("replay file does not hold a C42 case: {e}");
+            std::process::exit(2)
+        });
+        let mut sigs: Vec<Vec<Verdict>> = vec![];
+        for i in 0..3 {
+            let r = run_case(&case, wall_bound(), true, true);
+            println!("replay run {}: {}", i + 1, serde_json::to_string_pretty(&r.detail).unwrap());
+            sigs.push(r.verdicts);
+        }
+        report.stats.evaluations = 3;
+        if let Some(first) = sigs[0].iter().find(|v| sigs.iter().all(|s| s.iter().any(|w| w.sig == v.sig))) {
+            report.failures.push(Failure {
+                signature: if first.liveness { format!("{}:{}", first.sig, exec::shape(&case)) } else { first.sig.clone() },
+                what: first.what.clone(),
+                case: case_json(&case),
+                shrunk_from: None,
+                shrunk_to: None,
+            });
+        } else if sigs.iter().any(|s| !s.is_empty()) {
+            report.inconclusive.push("the case failed in some but not all of 3 runs".into());
+        }
+        vcore::finish(&ctx, meta, report);
+    }
+
+    let known = Known::load(&ctx.id);
+    let cases_n: usize = std::env::var("RT_CASES").ok().and_then(|s| s.parse().ok()).unwrap_or(ctx.pick(300, 5000));
+    let workers: usize = std::env::var("RT_WORKERS").ok().and_then(|s| s.parse().ok()).unwrap_or(24);
+    let strategy = case_strategy();
+    let mut runner = vcore::pt::runner(cases_n as u32, ctx.rng_seed("configs"), 0);
+    let mut cases: Vec<Case> = Vec::with_capacity(cases_n);
+    for _ in 0..cases_n {
+        cases.push(strategy.new_tree(&mut runner).expect("strategy").current());
+    }
+
+    // phase 1: all configurations, `workers` at a time
+    let next = AtomicUsize::new(0);
+    let hangs = AtomicUsize::new(0);
+    let results: Mutex<Vec<Option<RunResult>>> = Mutex::new((0..cases_n).map(|_| None).collect());
+    std::thread::scope(|s| {
+        for _ in 0..workers.min(cases_n) {
+            s.spawn(|| {
+                loop {
+                    let i = next.fetch_add(1, SeqCst);
+                    // every hang costs the full wall bound: after 3 of them the campaign goes on to confirm them
+                    if i >= cases_n || hangs.load(SeqCst) >= 3 {
+                        break;
+                    }
+                    let r = run_case(&cases[i], wall_bound(), false, true);
+                    if r.hung {
+                        hangs.fetch_add(1, SeqCst);
+                    }
+                    results.lock().unwrap()[i] = Some(r);
+                }
+            });
+        }
+    });
+    let results: Vec<Option<RunResult>> = results.into_inner().unwrap();
+    let skipped = results.iter().filter(|r| r.is_none()).count();
+
+    // phase 2: statistics, confirm-by-replay, shrinking
+    let stats = &mut report.stats;
+    let mut handled: Vec<String> = vec![];
+    let mut confirmed: Vec<String> = vec![];
+    let mut unconfirmed: Vec<Value> = vec![];
+    let mut max_wall = Duration::ZERO;
+    for (i, r) in results.iter().enumerate() {
+        let Some(r) = r else { continue };
+        let cj = case_json(&cases[i]);
+        stats.case(vcore::hash_json(&cj), r.nontrivial, &r.classes);
+        max_wall = max_wall.max(r.wall);
+        if r.nontrivial && stats.wants_sample() {
+            let mut c = cases[i].clone();
+            c.entries.truncate(6);
+            stats.sample(json!({"case_head": case_json(&c), "observed": r.detail}));
+        }
+        let Some(pv) = r.primary() else { continue };
+        stats.class("failed_first_run");
+        // per signature: up to 5 different failing configurations are tried until one reproduces 3/3
+        if confirmed.contains(&pv.sig) || handled.iter().filter(|s| **s == pv.sig).count() >= 5 {
+            continue;
+        }
+        let mut distinct = handled.clone();
+        distinct.dedup();
+        if distinct.len() >= 4 && !distinct.contains(&pv.sig) {
+            continue;
+        }
+        handled.push(pv.sig.clone());
+        handled.sort();
+        eprintln!("case {i}: {} — {}; re-running 3x", pv.sig, pv.what);
+        let (hits, _) = reproduces(&cases[i], &pv.sig, 3);
+        if hits < 3 {
+            eprintln!("  reproduced {hits}/3: not reported");
+            unconfirmed.push(json!({"case_index": i, "signature": pv.sig, "what": pv.what, "reproduced": format!("{hits}/3"), "liveness": pv.liveness}));
+            continue;
+        }
+        confirmed.push(pv.sig.clone());
+        let same = results.iter().flatten().filter(|x| x.primary().map(|p| p.sig == pv.sig).unwrap_or(false)).count();
+        if known.matches(&pv.sig) {
+            *stats.excluded_known.entry(pv.sig.clone()).or_insert(0) += same as u64;
+            continue;
+        }
+        // shrink (single runs while searching; the result is confirmed 3/3 below)
+        let sig = pv.sig.clone();
+        let from = cj.to_string().len() as u64;
+        // candidates of a (confirmed) hang are run with a 3 s bound; the minimal one is re-confirmed with the full bound
+        let (budget, max_evals) = if pv.liveness { (Duration::from_secs(ctx.pick(30, 240)), 60) } else { (Duration::from_secs(ctx.pick(8, 150)), 2000) };
+        let cand_bound = if pv.liveness { Duration::from_secs(3).min(wall_bound()) } else { wall_bound() };
+        let fails = |c: &Case| reproduces_within(c, &sig, 1, cand_bound).0 == 1;
+        let (min_case, evals) = model::shrink(&cases[i], &fails, budget, max_evals);
+        eprintln!("  shrunk with {evals} evaluations");
+        let what = reproduces_within(&min_case, &sig, 1, cand_bound).1[0].verdicts.iter().find(|v| v.sig == sig).map(|v| v.what.clone());
+        let mut best = match what {
+            Some(w) => (min_case, w),
+            None => (cases[i].clone(), pv.what.clone()),
+        };
+        // the minimal case must itself reproduce 3/3, otherwise the original (confirmed) case is reported
+        if best.0 != cases[i] && reproduces(&best.0, &sig, 3).0 < 3 {
+            best = (cases[i].clone(), pv.what.clone());
+        }
+        let cj2 = case_json(&best.0);
+        let sig = if pv.liveness { format!("{sig}:{}", exec::shape(&best.0)) } else { sig };
+        if known.matches(&sig) {
+            *stats.excluded_known.entry(sig).or_insert(0) += same as u64;
+            continue;
+        }
+        report.failures.push(Failure {
+            signature: sig,
+            what: best.1,
+            shrunk_to: Some(cj2.to_string().len() as u64),
+            case: cj2,
+            shrunk_from: Some(from),
+        });
+    }
+    for u in &unconfirmed {
+        let sig = u["signature"].as_str().unwrap_or("");
+        if confirmed.iter().any(|c| c == sig) {
+            continue;
+        }
+        if u["liveness"] == json!(true) {
+            report.inconclusive.push(format!("wall bound exceeded, reproduced {}: {}", u["reproduced"], u["what"]));
+        } else if sig != "C42:dropped-sleep-woke" && sig != "C42:block-timeout-spurious-timeout" {
+            // exact clauses cannot be falsified by scheduling noise: never pass silently
+            report.inconclusive.push(format!("exact clause failed but reproduced only {}: {sig} — {}", u["reproduced"], u["what"]));
+        }
+    }
+    let foreign = exec::FOREIGN_PANICS.lock().unwrap_or_else(|e| e.into_inner()).clone();
+    if !foreign.is_empty() {
+        let (name, file, msg) = &foreign[0];
+        let sig = exec::panic_signature(file, msg);
+        if known.matches(&sig) {
+            *report.stats.excluded_known.entry(sig).or_insert(0) += foreign.len() as u64;
+        } else if !report.failures.iter().any(|f| f.signature == sig) {
+            report.failures.push(Failure {
+                signature: sig,
+                what: format!("thread '{name}' panicked at {file}: {msg} ({} such panics)", foreign.len()),
+                case: Value::Null,
+                shrunk_from: None,
+                shrunk_to: None,
+            });
+        }
+    }
+    if skipped > 0 {
+        report.stats.extra.insert("configurations_skipped_after_3_hangs".into(), json!(skipped));
+    }
+    report.stats.extra.insert("unconfirmed_failures".into(), json!(unconfirmed));
+    report.stats.extra.insert("concurrent_configurations".into(), json!(workers));
+    report.stats.extra.insert("max_configuration_wall_ms".into(), json!(max_wall.as_millis() as u64));
+    vcore::finish(&ctx, meta, report);
 }
